@@ -127,6 +127,7 @@ class ReindexAxis(Contract):
             kw["raise_error"] = True
         if case["given"] == "ndarray":
             kw["axis"] = "x%d" % case["d"]
+        arr.axes[case["d"]].attrs["long_name"] = "the reindexed axis"      # axis-level metadata must survive reindexing of that axis [C16]
         return {"arr": arr, "labels": labels, "data": data, "old": S.snapshot(data), "new": new, "given": given, "kwargs": kw,
                 "attrs0": dict(arr.attrs)}
 
@@ -152,6 +153,8 @@ class ReindexAxis(Contract):
         Lr = result.axes[d].values
         yield "dims-kept", tuple(result.dims) == tuple(arr.dims)
         yield "axis-is-exactly-the-new-labels", S.land(S.n(Lr) == m, S.forall(0, m, lambda k: S.at(Lr, k) == S.at(new, k)))
+        if "_fresh" not in env:
+            yield "axis-metadata-survives-reindexing-of-that-axis", S.land(dict(result.axes[d].attrs) == dict(arr.axes[d].attrs), result.axes[d].name == arr.axes[d].name)
         names = env.get("dims") or ["x%d" % e for e in range(case["rank"])]
         yield "other-axes-equal", other_axes_equal(S, result, labels, d, names)
         shape = [S.n(Lb) if e != d else m for e, Lb in enumerate(labels)]
